@@ -18,6 +18,9 @@ import (
 // verifDetRot rotates every endpoint list: endpoint sets reach the generator as slices collected from maps, in any order.
 var verifDetRot int
 
+// verifDetAlone >= 0: the batch-mixed fixture yields only that one resource (rendered alone)
+var verifDetAlone = -1
+
 func verifDetEndpoints(n int) []string {
 	var out []string
 	for i := 0; i < n; i++ {
@@ -143,6 +146,42 @@ func verifDetFixture(fx string, n int, plus bool) ExtendedResources {
 			m.Minions = append(m.Minions, mn)
 		}
 		r.MergeableIngresses = []*MergeableIngresses{m}
+	case "batch-mixed":
+		// several VirtualServers with different policies in ONE batch, in an order that rotates from rendering to rendering: what
+		// is generated for one of them must not depend on which others were generated before it in the same batch, nor on
+		// whether it is processed alone
+		mk := func(name string, pols map[string]*conf_v1.Policy, refs []conf_v1.PolicyReference, secs map[string]*secrets.SecretReference) *VirtualServerEx {
+			ex := verifVsEx("d", name, 1)
+			ex.VirtualServer.Spec.Host = name + ".ex"
+			ex.Endpoints["d/svc:80"] = verifDetEndpoints(2)
+			ex.Policies = pols
+			ex.SecretRefs = secs
+			ex.VirtualServer.Spec.Policies = refs
+			return ex
+		}
+		var all []*VirtualServerEx
+		if plus {
+			all = append(all, mk("b-oidc", map[string]*conf_v1.Policy{"d/oidc": verifDetPolicy("oidc", conf_v1.PolicySpec{OIDC: &conf_v1.OIDC{
+				AuthEndpoint: "https://idp.ex/auth", TokenEndpoint: "https://idp.ex/token", JWKSURI: "https://idp.ex/jwks", ClientID: "c", ClientSecret: "oidc-sec", Scope: "openid"}})},
+				[]conf_v1.PolicyReference{{Name: "oidc"}},
+				map[string]*secrets.SecretReference{"d/oidc-sec": {Secret: &api_v1.Secret{Type: secrets.SecretTypeOIDC, Data: map[string][]byte{"client-secret": []byte("s3cret")}}}}))
+			all = append(all, mk("b-jwt", map[string]*conf_v1.Policy{"d/jwt": verifDetPolicy("jwt", conf_v1.PolicySpec{JWTAuth: &conf_v1.JWTAuth{Realm: "r", Secret: "jwk"}})},
+				[]conf_v1.PolicyReference{{Name: "jwt"}},
+				map[string]*secrets.SecretReference{"d/jwk": {Secret: &api_v1.Secret{Type: secrets.SecretTypeJWK}, Path: "/etc/nginx/secrets/d-jwk"}}))
+		}
+		all = append(all, mk("b-plain", nil, nil, nil))
+		all = append(all, mk("b-rl", map[string]*conf_v1.Policy{"d/rl": verifDetPolicy("rl", conf_v1.PolicySpec{RateLimit: &conf_v1.RateLimit{Rate: "9r/s", ZoneSize: "10M", Key: "${binary_remote_addr}"}})},
+			[]conf_v1.PolicyReference{{Name: "rl"}}, nil))
+		all = append(all, mk("b-key", map[string]*conf_v1.Policy{"d/ak": verifDetPolicy("ak", conf_v1.PolicySpec{APIKey: &conf_v1.APIKey{
+			SuppliedIn: &conf_v1.SuppliedIn{Header: []string{"X-Key"}}, ClientSecret: "aks"}})}, []conf_v1.PolicyReference{{Name: "ak"}},
+			map[string]*secrets.SecretReference{"d/aks": {Secret: &api_v1.Secret{Type: secrets.SecretTypeAPIKey, Data: map[string][]byte{"c1": []byte("k1")}}, Path: "/etc/nginx/secrets/d-aks"}}))
+		all = append(all, mk("b-acl", map[string]*conf_v1.Policy{"d/acl": verifDetPolicy("acl", conf_v1.PolicySpec{AccessControl: &conf_v1.AccessControl{Allow: []string{"10.0.0.0/8"}}})},
+			[]conf_v1.PolicyReference{{Name: "acl"}}, nil))
+		k := verifDetRot % len(all)
+		r.VirtualServerExes = append(append([]*VirtualServerEx{}, all[k:]...), all[:k]...)
+		if n > 0 && n <= len(all) && verifDetAlone >= 0 {
+			r.VirtualServerExes = []*VirtualServerEx{all[verifDetAlone%len(all)]}
+		}
 	case "ts-rich":
 		ex := verifTsEx("d", "t1", 1, "")
 		ex.TransportServer.Spec.Upstreams = nil
@@ -196,6 +235,30 @@ func VerifDet(kv map[string]string) string {
 		for _, e := range rm.VerifTake() {
 			if strings.HasPrefix(e, "W|") && strings.HasSuffix(e, "|1") {
 				changed2++
+			}
+		}
+	}
+	if kv["fx"] == "batch-mixed" {
+		// each resource of the batch once more on its own, through the single-resource operation
+		for a := 0; a < 8; a++ {
+			verifDetRot, verifDetAlone = 0, a
+			one := verifDetFixture(kv["fx"], n, plus)
+			verifDetAlone = -1
+			cnf, rm, err := VerifNewRecConfigurator(plus, false, true)
+			if err != nil {
+				return "setup-error"
+			}
+			cnf.EnableReloads()
+			for _, ex := range one.VirtualServerExes {
+				if _, err := cnf.AddOrUpdateVirtualServer(ex); err != nil {
+					return "render-error"
+				}
+			}
+			for f, c := range rm.Files {
+				if seen[f] == nil {
+					seen[f] = map[string]bool{}
+				}
+				seen[f][c] = true
 			}
 		}
 	}
